@@ -7,6 +7,11 @@ ALL = ["C%02d" % i for i in range(1, 21)]
 
 # id -> (category, technique, level text, level note, design ref, engine)
 CHECKS = {
+ "C13": ("model_checking",
+         "stateless CHESS-style schedule exploration of real OS threads at interposed read/pread64/lseek64 system calls and async-mutex hand-offs, iterative preemption bounding, DFS with prefix replay",
+         "Every interleaving of 2 caller threads (and every interleaving with at most 2 preemptions of 3-4 threads) at the system calls the real DataReaderFile / VersaTilesReader / PMTilesReader / TarTilesReader issue on the container file is executed against the real code, and every call must return the bytes it returns alone; deadlock = unfinished threads with none enabled. Right level: the shared state is the kernel file offset and the async mutex, both owned by the explorer.",
+         "Scheduling points are system calls on the container file and Pending polls only: individual atomic operations inside futures::lock::Mutex and unsynchronised memory accesses are not reordered; 4-16 callers and multi-thread runtimes are covered by a labelled free-running sample only.",
+         "3/C13", "E-sched"),
  "C15": ("model_checking",
          "explicit-state BFS (stateright) to closure over raw TileBBox states per level with a bit-mask set model, plus bounded-exhaustive enumeration of pyramids, high-zoom border boxes and geographic boxes",
          "Every raw TileBBox state reachable at zoom 0..3 through the mutating methods (both empty encodings and half-empty boxes included) is visited; every query method is compared with the set it denotes in every state and intersect/union/overlaps for every ordered pair of reachable states; pyramids over all combinations of per-level alphabets; all boxes at z<=5 (quick) / z<=6 (thorough) for the geo round trip; border boxes up to z=31 with an interval model; every lon/lat-alphabet box and zero-area box at every tile corner of z<=4/5 for from_geo. Right level: the property is a statement about all boxes and pairs, and the low-zoom space closes.",
@@ -50,6 +55,7 @@ def main():
             "add_only": True,
         },
         "engines": [
+            {"name": "E-sched", "path": "harness/src/bin/vsched.rs", "serves_properties": ["C13"], "kind_free_text": "controlled scheduler for real OS threads via symbol interposition of read/pread64/lseek64; stateless DFS, preemption bounded, replayable schedules"},
             {"name": "E-state", "path": "harness/src/checks/c20.rs, harness/src/checks/c15.rs", "serves_properties": ["C20", "C15"], "kind_free_text": "stateright BFS over real objects, canonical-state dedup"},
         ],
         "checks": checks,
